@@ -286,7 +286,7 @@ def gen_case(rnd, ctx, max_types, max_offers, nq):
 def corpus():
     """Triggers of the listed finding and hand-made shapes (run first on every run)."""
     cs = []
-    # F-C17-sort: T0=X, T1=A, T2=C(A), T3=B, T4=S(X, C, B), T5=target; offers A->T, B->T, C->T in this order
+    # F21: T0=X, T1=A, T2=C(A), T3=B, T4=S(X, C, B), T5=target; offers A->T, B->T, C->T in this order
     types = [{"bases": []}, {"bases": []}, {"bases": [1]}, {"bases": []}, {"bases": [0, 2, 3]}, {"bases": []}]
     cs.append(dict(types=types, regs=[], offers=[[1, 5, ["A"]], [3, 5, ["A"]], [2, 5, ["A"]]],
                    ops=[[4, 5, 0, a] for a in ("adapt", "adapt_default", "Supports", "AdaptsTo", "inst1")]))
